@@ -423,7 +423,12 @@ func shrinkOps(p Pair) []func(*Pair) {
 				}
 				ops = append(ops,
 					onC(func(c *Col, _ *Table) { c.Default = nil }),
-					onC(func(c *Col, _ *Table) { c.Gen = nil; c.Null = true }),
+					onC(func(c *Col, t *Table) {
+						if c.Gen != nil && !t.InPK(c.Name) {
+							c.Gen = nil
+							c.Null = true
+						}
+					}),
 					onC(func(c *Col, t *Table) {
 						if !t.InPK(c.Name) {
 							c.Null = true
@@ -593,7 +598,7 @@ func AppendOnly(a, b Schema) bool {
 }
 
 // FeaturesExt is Features plus features added later ("pk-nullable": a primary-key column is declared
-// nullable; "column-order-differs": a table present on both sides lists its shared columns in a
+// nullable; "exotic-column-name": a column name that is not a plain identifier; "column-order-differs": a table present on both sides lists its shared columns in a
 // different order). They are kept out of Features so that finding keys other monitors already
 // recorded do not change.
 func (p Pair) FeaturesExt() []string {
@@ -604,11 +609,19 @@ func (p Pair) FeaturesExt() []string {
 				if t.InPK(c.Name) && c.Null {
 					f["pk-nullable"] = true
 				}
+				if !reIdent.MatchString(c.Name) {
+					f["exotic-column-name"] = true
+				}
 			}
 		}
 	}
 	for _, ta := range p.A.Tables {
 		if tb := p.B.Table(ta.Name); tb != nil {
+			for _, c := range ta.Cols {
+				if d := tb.Col(c.Name); d != nil && Affinity(c.Type) == Affinity(d.Type) && TypeFamily(c.Type) != TypeFamily(d.Type) {
+					f["edit:col.type-family"] = true
+				}
+			}
 			var ca, cb []string
 			for _, c := range ta.Cols {
 				if tb.Col(c.Name) != nil {
